@@ -113,6 +113,11 @@ struct Value {
         default: break;
         }
     }
+    // UTF-16 text given as raw code units (may hold unpaired surrogates); only for T_U16CSTR / T_U16STRING / T_U16SV
+    void set_units16(Ty t, const std::u16string &units) {
+        ty = t; utf8 = "<UTF-16 units>";
+        if (t == T_U16STRING) s16 = units; else x16.reset(new verif::Exact<char16_t>(units.data(), units.size(), t == T_U16CSTR));
+    }
     ref::Arg to_ref() const {
         if (ty_is_int(ty)) return ty_signed(ty) ? ref::Arg::sint(s) : ref::Arg::uint(u);
         if (ty == T_BOOL) return ref::Arg::boolean(b);
@@ -262,7 +267,7 @@ static const uint32_t kScalars[] = {'a', 'Z', ' ', '0', 'x', '7', '-', 0xE9, 0x2
 inline void gen_scalars(verif::Reader &r, size_t n, bool ascii_only, std::vector<uint32_t> &out) {
     for (size_t i = 0; i < n; i++) {
         uint8_t b = r.u8();
-        if (ascii_only || b < 160) out.push_back("abcXYZ 019_-.,;:!?#+<>&"[b % 24]);
+        if (ascii_only || b < 160) { static const char asc[] = "abcXYZ 019_-.,;:!?#+<>&"; out.push_back((unsigned char)asc[b % (sizeof asc - 1)]); }
         else out.push_back(kScalars[b % (sizeof kScalars / sizeof kScalars[0])]);
     }
 }
@@ -335,7 +340,7 @@ inline void decode_call(verif::Reader &r, Call &c, const Options &opt) {
         size_t n = r.range(0, maxitems);
         for (size_t i = 0; i < n; i++) {
             uint8_t b = r.u8();
-            if (b < 120) c.fmt += "abcxyz ,:=|019XQ-_.&#+<>"[b % 24];
+            if (b < 120) { static const char asc[] = "abcxyz ,:=|019XQ-_.&#+<>"; c.fmt += asc[b % (sizeof asc - 1)]; }
             else if (b < 150) { c.fmt += "{{"; c.has_escape = true; }
             else if (b < 180) { c.fmt += "}}"; c.has_escape = true; }
             else if (b < 200) { c.fmt += "}"; c.has_escape = true; }
@@ -375,16 +380,7 @@ inline void decode_call(verif::Reader &r, Call &c, const Options &opt) {
         };
         if (ty_is_int(v.ty)) {
             bool as_char = r.chance(40);
-            if (as_char) {
-                // statement: U+FFFD unless the value is in 0..10FFFF.  Open finding: for 64-bit arguments the library
-                // converts to int first, so e.g. 0x100000041 prints "A"; and char8_t >= 0x80 is appended as a raw
-                // code unit.  Both classes are excluded by construction and counted.
-                long long val = ty_signed(v.ty) ? v.s : (long long)v.u;
-                bool wide64 = ty_bits(v.ty) == 64 && (ty_signed(v.ty) ? (v.s < INT_MIN || v.s > (long long)UINT_MAX) : v.u > UINT_MAX);
-                (void)val;
-                bool raw8 = v.ty == T_CHAR8 && v.u >= 0x80;
-                if (wide64 || raw8) { c.excluded_known++; as_char = false; }
-            }
+            if (as_char && v.ty == T_CHAR8) as_char = false;     // domain: char8_t is a UTF-8 code unit, {c} copies it verbatim (documented special case) - not generated
             if (as_char) {
                 sp.cls = 'c'; c.has_cclass = true;
                 if (r.chance(40)) sp.align = 1 + (int)r.range(0, 1);      // alignment without width: no padding requested
